@@ -85,6 +85,17 @@ theorem writeExport_body_decode (o : OutOpts) (sid : Nat) (t : Tree) (ls : List 
 
 /-! ### the specification decoder -/
 
+/-- after the frame and the lines, the decoder works on the decoded body -/
+theorem decExport_eq_decBody (o : OutOpts) (sid : Nat) (t : Tree) (ls : List Str) (h : writeExport o sid t = .ok ls)
+    (hwf : WF t = true) (hok : ExportOK o t = true) : decExport o.exportFour ls = decBody sid (bodyOf o t) := by
+  have hbody := writeExport_body_decode o sid t ls h hwf hok
+  obtain ⟨hls, _⟩ := writeExport_shape o sid t ls h
+  have hmid : (ls.drop 1).dropLast = (tokPaths t).map (lineAt o t) ++ (consPaths t).map (lineAt o t) := by
+    rw [writeExport_body_paths o sid t ls h, List.map_append]
+  rw [hmid] at hbody
+  rw [hls, List.append_assoc ["#BOS ".toList ++ natToStr sid]]
+  exact decExport_frame o.exportFour sid _ _ hbody
+
 /-- CORRECTED `decExport_write`: one hypothesis is added (`hN`: fewer than 500 tokens, the decoder reads the numbers
     1..499 as tokens and 500.. as constituents); without it the statement is false (see the note at the end).
     MAIN: the specification decoder recovers sentence id, tokens, labels, edges and dominance from what the writer wrote, and the
@@ -93,14 +104,7 @@ theorem decExport_write' (o : OutOpts) (sid : Nat) (t : Tree) (ls : List Str) (h
     (hwf : WF t = true) (hok : ExportOK o t = true) (hN : t.leafNums.length < 500) :
     ∃ s, decExport o.exportFour ls = some s ∧ s.sid = sid ∧ sameTree s.tree (carryExportRoot o t) = true ∧
       s.tokensFirst = true ∧ s.numbersFrom500 = true ∧ s.parentsResolve = true ∧ s.childBelowParent = true := by
-  have hbody := writeExport_body_decode o sid t ls h hwf hok
-  obtain ⟨hls, _⟩ := writeExport_shape o sid t ls h
-  have hmid : (ls.drop 1).dropLast = (tokPaths t).map (lineAt o t) ++ (consPaths t).map (lineAt o t) := by
-    rw [writeExport_body_paths o sid t ls h, List.map_append]
-  rw [hmid] at hbody
-  have hdec : decExport o.exportFour ls = decBody sid (bodyOf o t) := by
-    rw [hls, List.append_assoc ["#BOS ".toList ++ natToStr sid]]
-    exact decExport_frame o.exportFour sid _ _ hbody
+  have hdec := decExport_eq_decBody o sid t ls h hwf hok
   obtain ⟨s, hs, h1, h2, h3⟩ := decBody_write o sid t hwf hok hN
   refine ⟨s, by rw [hdec, hs], h1, ?_, h3⟩
   unfold sameTree
@@ -109,5 +113,117 @@ theorem decExport_write' (o : OutOpts) (sid : Nat) (t : Tree) (ls : List Str) (h
 example : ∃ s, decExport false exLines = some s ∧ s.sid = 7 ∧ sameTree s.tree (carryExportRoot {} exT) = true ∧
       s.tokensFirst = true ∧ s.numbersFrom500 = true ∧ s.parentsResolve = true ∧ s.childBelowParent = true :=
   decExport_write' {} 7 exT _ exT_write exT_WF exT_ok (by decide +kernel)
+
+/-! ### the tool's own reader (C03) -/
+
+/-- CORRECTED `readExport_write`: two hypotheses are added; without each of them the statement is false (see the note at the end).
+    `hN`: fewer than 500 tokens (the reader keeps tokens and constituents in one table keyed by number);
+    `hE`: no token is written with a word that starts with `#EOS` (the reader ends the sentence at such a line).
+    Own round trip (C03): the tool's own export reader accepts what its writer produced and delivers the same content
+    (the word slot of a constituent holds "#5xx" in the reader's result and is not content) -/
+theorem readExport_write' (sid : Nat) (t : Tree) (ls : List Str) (h : writeExport {} sid t = .ok ls)
+    (hwf : WF t = true) (hok : ExportOK {} t = true) (hN : t.leafNums.length < 500)
+    (hE : ∀ s ∈ t.subtrees, s.isLeaf = true → "#EOS".toList.isPrefixOf (s.fields.word.getD []) = false) :
+    ∃ r, readExport {} ((ls.map (· ++ ['\n'])).flatten) = .ok [(sid, r)] ∧
+      sameTree (Tree.mapFields (fun s f => match s with | .node _ _ => { f with word := none } | _ => f) r)
+               (Tree.mapFields (fun s f => match s with | .node _ _ => { f with word := none } | _ => f) (carryExportRoot {} t)) = true := by
+  have hne := WF_noEmpty t hwf
+  obtain ⟨hls, hlines⟩ := writeExport_shape {} sid t ls h
+  have hdec := writeExport_lines_decode_entry {} sid t ls h hwf hok
+  obtain ⟨r, hr, hnf⟩ := exportSentence_write t hwf hok hN hdec
+  have hbody : ∀ l ∈ (tokPaths t ++ consPaths t).map (lineAt {} t),
+      '\n' ∉ l ∧ strip l = l ∧ "#EOS".toList.isPrefixOf l = false := by
+    intro l hl
+    obtain ⟨p, hp, rfl⟩ := List.mem_map.1 hl
+    obtain ⟨hp1, hp2⟩ := (mem_tok_cons t p).1 hp
+    obtain ⟨l', hl'⟩ := hlines p ((mem_nonRoot t p).2 ⟨hp1, hp2⟩)
+    refine lineAt_loop_ok t p l' hne hok hp1 hl' ?_
+    unfold wordOf
+    split
+    · rename_i hk
+      rw [kids_isEmpty_eq_isLeaf _ (noEmpty_subAt t p hne hp1)] at hk
+      exact hE _ (mem_subtrees_subAt t p hp1) hk
+    · exact eos_not_prefix_hash _
+  refine ⟨r, ?_, ?_⟩
+  · rw [hls, List.append_assoc ["#BOS ".toList ++ natToStr sid], ← List.map_append]
+    exact readExport_frame sid _ r hbody hr
+  · unfold sameTree
+    show Tree.beq (nf r) (nf (carryExportRoot {} t)) = true
+    rw [hnf]; exact beq_refl _
+
+example : ∃ r, readExport {} ((exLines.map (· ++ ['\n'])).flatten) = .ok [(7, r)] ∧
+      sameTree (Tree.mapFields (fun s f => match s with | .node _ _ => { f with word := none } | _ => f) r)
+               (Tree.mapFields (fun s f => match s with | .node _ _ => { f with word := none } | _ => f) (carryExportRoot {} exT)) = true :=
+  readExport_write' 7 exT _ exT_write exT_WF exT_ok (by decide +kernel) (by decide +kernel)
+
+/-! ### the statements of the brief that are false as given -/
+
+/-- the writer succeeds on every tree the format can represent -/
+theorem writeExport_total (o : OutOpts) (sid : Nat) (t : Tree) (hok : ExportOK o t = true) : ∃ ls, writeExport o sid t = .ok ls :=
+  TT.Lemmas.ExportRT.writeExport_total o sid t hok
+
+/-- 500 (or more) tokens directly below the root: the writer writes the sentence, the decoder rejects it
+    (token 500 is looked up as a constituent) -/
+theorem decExport_fails_flat (o : OutOpts) (sid : Nat) (t : Tree) (ls : List Str) (h : writeExport o sid t = .ok ls)
+    (hwf : WF t = true) (hok : ExportOK o t = true)
+    (hflat : (t.subtrees.filter fun s => !s.isLeaf).length = 1) (hN : 500 ≤ t.leafNums.length) :
+    decExport o.exportFour ls = none := by
+  rw [decExport_eq_decBody o sid t ls h hwf hok]
+  exact decBody_fails_flat o sid t hwf hok hflat hN
+
+/-- COUNTEREXAMPLE tree for `decExport_write`: `(S (A a) … (A a))` with 500 tokens -/
+def flat (n : Nat) : Tree :=
+  node { label := "S".toList } ((List.range n).map fun i => leaf (i + 1) { label := "A".toList, word := some "a".toList })
+
+theorem flat500_WF : WF (flat 500) = true := by decide +kernel
+theorem flat500_ok : ExportOK {} (flat 500) = true := by decide +kernel
+theorem flat500_cons : ((flat 500).subtrees.filter fun s => !s.isLeaf).length = 1 := by decide +kernel
+theorem flat500_len : (flat 500).leafNums.length = 500 := by decide +kernel
+
+/-- `decExport_write` as stated in the brief is FALSE -/
+theorem decExport_write_false :
+    ¬ (∀ (o : OutOpts) (sid : Nat) (t : Tree) (ls : List Str), writeExport o sid t = .ok ls → WF t = true → ExportOK o t = true →
+      ∃ s, decExport o.exportFour ls = some s ∧ s.sid = sid ∧ sameTree s.tree (carryExportRoot o t) = true ∧
+        s.tokensFirst = true ∧ s.numbersFrom500 = true ∧ s.parentsResolve = true ∧ s.childBelowParent = true) := by
+  intro H
+  obtain ⟨ls, hls⟩ := writeExport_total {} 7 (flat 500) flat500_ok
+  obtain ⟨s, hs, _⟩ := H {} 7 (flat 500) ls hls flat500_WF flat500_ok
+  rw [decExport_fails_flat {} 7 (flat 500) ls hls flat500_WF flat500_ok flat500_cons (by rw [flat500_len]; exact Nat.le_refl _)] at hs
+  cases hs
+
+/-- COUNTEREXAMPLE tree for `readExport_write`: one token whose word is `#EOS` -/
+def eosT : Tree := node { label := "S".toList } [leaf 1 { label := "A".toList, word := some "#EOS".toList }]
+def eosLines : List Str := ["#BOS 7".toList, "#EOS\t\t\tA\t--\t\t--\t0".toList, "#EOS 7".toList]
+
+theorem eosT_write : writeExport {} 7 eosT = .ok eosLines := by decide +kernel
+theorem eosT_WF : WF eosT = true := by decide +kernel
+theorem eosT_ok : ExportOK {} eosT = true := by decide +kernel
+
+/-- the conclusion of `readExport_write`, as a test -/
+def rtCheck (sid : Nat) (t : Tree) (ls : List Str) : Bool :=
+  match readExport {} ((ls.map (· ++ ['\n'])).flatten) with
+  | .ok [(i, r)] => i == sid &&
+      sameTree (Tree.mapFields (fun s f => match s with | .node _ _ => { f with word := none } | _ => f) r)
+               (Tree.mapFields (fun s f => match s with | .node _ _ => { f with word := none } | _ => f) (carryExportRoot {} t))
+  | _ => false
+
+/-- the reader takes the token line `#EOS …` for the end of the sentence and delivers an empty tree -/
+theorem eosT_check : rtCheck 7 eosT eosLines = false := by decide +kernel
+
+/-- `readExport_write` as stated in the brief is FALSE -/
+theorem readExport_write_false :
+    ¬ (∀ (sid : Nat) (t : Tree) (ls : List Str), writeExport {} sid t = .ok ls → WF t = true → ExportOK {} t = true →
+      ∃ r, readExport {} ((ls.map (· ++ ['\n'])).flatten) = .ok [(sid, r)] ∧
+        sameTree (Tree.mapFields (fun s f => match s with | .node _ _ => { f with word := none } | _ => f) r)
+                 (Tree.mapFields (fun s f => match s with | .node _ _ => { f with word := none } | _ => f) (carryExportRoot {} t)) = true) := by
+  intro H
+  obtain ⟨r, hr, hs⟩ := H 7 eosT eosLines eosT_write eosT_WF eosT_ok
+  have : rtCheck 7 eosT eosLines = true := by
+    unfold rtCheck
+    rw [hr]
+    simp only [beq_self_eq_true, Bool.true_and]
+    exact hs
+  rw [eosT_check] at this
+  cases this
 
 end TT.Props.C02Export
